@@ -74,6 +74,8 @@ def run(ctx):
                       config, ctx.where(ni, (leak or [None])[0]))
         # replayed events consume the budget (shared rule with C07)
         C07.rule_replay(ctx, fx, config)
+        # a replayed scalar is charged its full text, borrowed or not: it is materialised again in the target (shared rule with C07)
+        C07.rule_scalar_bytes_operand(ctx, fx, config, prop="C08")
         # WHO-WRITES: the alias counters
         for fld in ("total_replayed_events", "per_anchor_expansions"):
             writers = set()
